@@ -673,7 +673,7 @@ impl Property for C20 {
         "fault_enumeration"
     }
     fn rule(&self) -> String {
-        "A case runs the real NetcodeServerTransport and 1-3 NetcodeClientTransports (secure authentication with generated tokens, or in some cases the Unsecure development mode of both transports) (plus reconnecting client objects with new tokens; some tokens list a silent address before the real one, so the client fails over first) on loopback UDP sockets through an in-path relay that the harness thread pumps after every transport call. Relay fault decision per (client, direction, datagram): forward / drop / duplicate / delay 1-6 ticks (hence reorder) / flip one bit / forward and replay an old datagram of that link; whole-silence periods (in some cases the datagrams for the client then arrive from another source port of the relay's host instead of being dropped, while its own datagrams may still reach the server, which a client transport must treat as silence: after timeout + 3 ticks of it the client is disconnected); application traffic on all three default channels in both directions and broadcasts; disconnects decided by RenetClient::disconnect, NetcodeClientTransport::disconnect, RenetServer::disconnect, NetcodeServerTransport::disconnect_all, by silence (timeouts) and by the receiving message layer itself while it processes a datagram (a peer sends more than the receiver's budget of the extra channel 3, or on a channel only the sender knows); reconnects; the client limit raised and lowered at run time (the transport's max_clients() reads back what was set); in some cases a local (in-process) client connected to the same RenetServer; 'aged' cases start the message layer's packet counters at 2^40 so that full slices make the largest datagrams; messages are also submitted while the handshake still runs; a second client object of a connected id may start while the first is alive, or two objects of one id start together and the one that got in quits at a planned tick within the other's response timeout; single server frames longer than the timeout; in some cases tokens expire 2 * timeout + 4 s after they were minted, so sessions outlive their token; in some cases a stranger sprays 6 empty datagrams per tick at the server's socket and 6 one-byte datagrams at every client's, from an address nobody talks to, for a little longer than the timeout; some gentle cases run with tokens whose timeout is negative (timeouts disabled: keep-alives, retries and the final liveness clause work as ever). Oracles: right after every NetcodeServerTransport::update the ids the message layer reports connected equal the ids the netcode layer holds (client_addr, connected_clients), no disconnected connection is left, and equal the ids open in the ServerEvent stream, which alternates per id and only names ids that hold a token; every message obtained over the full stack satisfies the ordered-prefix / unordered-at-most-once / unreliable-membership oracles of its session; after the faults stop and timeout + 3 s of fault-free ticks every session for which a disconnect was decided anywhere has ended on both sides, and every session that stayed healthy has obtained all reliable messages; in 'gentle' cases (no disconnect operation, no silence, at least one genuine datagram per direction forwarded in every third of the timeout) nobody is ever disconnected whatever else the relay does, and at the end every client is connected in both layers on both sides; a transport update never reports 'nothing more to read' (WouldBlock) as an error. Non-trivial: at least one corrupted or replayed datagram after a handshake completed and at least one relay fault. Distinct = hash of the decoded operation trace.".into()
+        "A case runs the real NetcodeServerTransport and 1-3 NetcodeClientTransports (secure authentication with generated tokens, or in some cases the Unsecure development mode of both transports) (plus reconnecting client objects with new tokens; some tokens list a silent address before the real one, so the client fails over first) on loopback UDP sockets through an in-path relay that the harness thread pumps after every transport call. Relay fault decision per (client, direction, datagram): forward / drop / duplicate / delay 1-6 ticks (hence reorder) / flip one bit / forward and replay an old datagram of that link; whole-silence periods (in some cases the datagrams for the client then arrive from another source port of the relay's host instead of being dropped, while its own datagrams may still reach the server, which a client transport must treat as silence: after timeout + 3 ticks of it the client is disconnected); application traffic on all three default channels in both directions and broadcasts; disconnects decided by RenetClient::disconnect, NetcodeClientTransport::disconnect, RenetServer::disconnect, NetcodeServerTransport::disconnect_all, by silence (timeouts) and by the receiving message layer itself while it processes a datagram (a peer sends more than the receiver's budget of the extra channel 3, or on a channel only the sender knows); reconnects; the client limit raised and lowered at run time (the transport's max_clients() reads back what was set); ticks of 16 / 50 / 100 ms, in a fifth of the cases 250 or 300 ms (at or above the netcode send period); in non-gentle secure cases an operation mints a token that expires at the whole second the next server frame reaches or passes and starts its client at once - by the server's clock (tracked by the harness, long frames included) the token has expired before the first request can be read, so that client is never connected on either side; in some cases a local (in-process) client connected to the same RenetServer; 'aged' cases start the message layer's packet counters at 2^40 so that full slices make the largest datagrams; messages are also submitted while the handshake still runs; a second client object of a connected id may start while the first is alive, or two objects of one id start together and the one that got in quits at a planned tick within the other's response timeout; single server frames longer than the timeout; in some cases tokens expire 2 * timeout + 4 s after they were minted, so sessions outlive their token; in some cases a stranger sprays 6 empty datagrams per tick at the server's socket and 6 one-byte datagrams at every client's, from an address nobody talks to, for a little longer than the timeout; some gentle cases run with tokens whose timeout is negative (timeouts disabled: keep-alives, retries and the final liveness clause work as ever). Oracles: right after every NetcodeServerTransport::update the ids the message layer reports connected equal the ids the netcode layer holds (client_addr, connected_clients), no disconnected connection is left, and equal the ids open in the ServerEvent stream, which alternates per id and only names ids that hold a token; every message obtained over the full stack satisfies the ordered-prefix / unordered-at-most-once / unreliable-membership oracles of its session; after the faults stop and timeout + 3 s of fault-free ticks every session for which a disconnect was decided anywhere has ended on both sides, and every session that stayed healthy has obtained all reliable messages; in 'gentle' cases (no disconnect operation, no silence, at least one genuine datagram per direction forwarded in every third of the timeout) nobody is ever disconnected whatever else the relay does, and at the end every client is connected in both layers on both sides; a transport update never reports 'nothing more to read' (WouldBlock) as an error. Non-trivial: at least one corrupted or replayed datagram after a handshake completed and at least one relay fault. Distinct = hash of the decoded operation trace.".into()
     }
     fn assumptions(&self) -> Vec<String> {
         vec![
